@@ -32,7 +32,10 @@ Inner(c) == Nodes(c) \ Leaves(c)
 
 (* transition matrix of the edge above node n for rate class b (b = 0: no classes) *)
 EdgeQ(c, n, b) == IF b = 0 THEN RPow(c.s[n], c.qpow) ELSE RPow(c.s[n], c.mult[b])
-EdgeP(c, n, b) == P(PInstances[c.inst[n]], EdgeQ(c, n, b))
+(* a class may also differ from the others in a model parameter rather than in rate (cogent3: a parameter with a     *)
+(* `bin` scope): c.bininst[b], when given, is the instance class b uses on every edge                                 *)
+EdgeInst(c, n, b) == IF b > 0 /\ c.bininst # <<>> THEN c.bininst[b] ELSE c.inst[n]
+EdgeP(c, n, b) == P(PInstances[EdgeInst(c, n, b)], EdgeQ(c, n, b))
 
 RECURSIVE RProdSet(_, _)
 RProdSet(S, f) == IF S = {} THEN One ELSE LET x == CHOOSE x \in S : TRUE IN RMul(f[x], RProdSet(S \ {x}, f))
@@ -59,6 +62,46 @@ BruteB(c, col, b) ==
 Brute(c, col) == IF NBins(c) = 0 THEN BruteB(c, col, 0)
                  ELSE RSumSet(1..NBins(c), [b \in 1..NBins(c) |-> RMul(c.bprobs[b], BruteB(c, col, b))])
 
+------------------------------------------------------------------------------
+(* Site classes that are NOT independent between neighbouring columns (sites_independent=False): a two-state   *)
+(* hidden Markov chain over "patches" of classes runs along the alignment.  cogent3 allocates the first half of  *)
+(* the classes to patch 1 and the rest to patch 2; a patch's probability is the sum of its classes' bprobs; the  *)
+(* chain has those as stationary probabilities and one parameter bin_switch:                                      *)
+(*    T[i][j] = pp[j] * switch (i # j),   T[i][i] = 1 - (1 - pp[i]) * switch                                      *)
+(* (switch = 0: the whole alignment is in one patch; switch = 1: neighbouring columns independent).               *)
+(* The likelihood of the ORDERED sequence of columns is the sum over all patch paths; Fwd is the forward          *)
+(* recursion the implementation uses.                                                                             *)
+Patches == {1, 2}
+Alloc(c, b) == IF b <= NBins(c) \div 2 THEN 1 ELSE 2
+BinsOf(c, p) == {b \in 1..NBins(c) : Alloc(c, b) = p}
+PatchProb(c, p) == RSumSet(BinsOf(c, p), [b \in 1..NBins(c) |-> c.bprobs[b]])
+Emis(c, col, p) == RSumSet(BinsOf(c, p), [b \in 1..NBins(c) |-> RMul(RDiv(c.bprobs[b], PatchProb(c, p)), SiteB(c, col, b))])
+Trans(c, i, j) == IF i = j THEN RSub(One, RMul(RSub(One, PatchProb(c, i)), c.switch))
+                  ELSE RMul(PatchProb(c, j), c.switch)
+(* E[kk][p]: emission table of a sequence of columns (computed once; the recursions below only combine numbers) *)
+ETable(c, cols) == [kk \in 1..Len(cols) |-> [p \in Patches |-> Emis(c, cols[kk], p)]]
+TTable(c) == [i \in Patches |-> [j \in Patches |-> Trans(c, i, j)]]
+PTable(c) == [p \in Patches |-> PatchProb(c, p)]
+RECURSIVE FwdVec(_, _, _, _)
+FwdVec(pp, T, E, kk) ==    \* [p |-> joint probability of columns 1..kk and of column kk being in patch p]
+    IF kk = 1 THEN [p \in Patches |-> RMul(pp[p], E[1][p])]
+    ELSE LET prev == FwdVec(pp, T, E, kk - 1)
+         IN  [p \in Patches |-> RMul(RAdd(RMul(prev[1], T[1][p]), RMul(prev[2], T[2][p])), E[kk][p])]
+HmmLikE(pp, T, E) == LET f == FwdVec(pp, T, E, Len(E)) IN RAdd(f[1], f[2])
+HmmLik(c, cols) == HmmLikE(PTable(c), TTable(c), ETable(c, cols))
+(* first principles: explicit sum over every path of patches *)
+RECURSIVE PathWeight(_, _, _, _, _)
+PathWeight(pp, T, E, z, kk) ==
+    IF kk = 1 THEN RMul(pp[z[1]], E[1][z[1]])
+    ELSE RMul(PathWeight(pp, T, E, z, kk - 1), RMul(T[z[kk - 1]][z[kk]], E[kk][z[kk]]))
+HmmBrute(c, cols) == LET Z == [1..Len(cols) -> Patches]
+                         E == ETable(c, cols)
+                         T == TTable(c)
+                         pp == PTable(c)
+                     IN  RSumSet(Z, [z \in Z |-> PathWeight(pp, T, E, z, Len(cols))])
+RECURSIVE RProdSeq(_)
+RProdSeq(s) == IF s = <<>> THEN One ELSE RMul(Head(s), RProdSeq(Tail(s)))
+
 (* every column over the four canonical states: a function Leaves -> Nuc, as a column *)
 CanonCols(c) == {[n \in Nodes(c) |-> IF n \in Leaves(c) THEN f[n] ELSE "N"] : f \in [Leaves(c) -> Nuc]}
 ColOf(c, seqcol) == [n \in Nodes(c) |-> IF n \in Leaves(c) THEN seqcol[n] ELSE "N"]
@@ -78,6 +121,9 @@ Step == StepT /\ Emit([act |-> "Lik", id |-> Cfg.id, newick |-> Cfg.newick, leaf
                        model |-> PInstances[Cfg.rootinst].name,
                        pi |-> {<<x, RootPi(Cfg, x)>> : x \in Nuc},
                        bprobs |-> Cfg.bprobs, mult |-> Cfg.mult, qpow |-> Cfg.qpow,
+                       hmm |-> Cfg.hmm, switch |-> Cfg.switch,
+                       binpar |-> [b \in 1..Len(Cfg.bininst) |-> <<PInstances[Cfg.bininst[b]].par, PInstances[Cfg.bininst[b]].ky>>],
+                       alnlik |-> IF Cfg.hmm THEN HmmLik(Cfg, [i \in 1..Len(Cfg.cols) |-> ColOf(Cfg, Cfg.cols[i])]) ELSE Zero,
                        cols |-> [i \in 1..Len(Cfg.cols) |-> [n \in Leaves(Cfg) |-> Cfg.cols[i][n]]],
                        lik |-> [i \in 1..Len(Cfg.cols) |-> Site(Cfg, ColOf(Cfg, Cfg.cols[i]))]])
 Spec == Init /\ [][Step]_vars
@@ -90,4 +136,23 @@ ColumnsSumToOne ==
     Cfg.normalise => RSumSet(CanonCols(Cfg), [col \in CanonCols(Cfg) |-> Site(Cfg, col)]) = One
 (* an all-ambiguous column has likelihood one; likelihood is monotone in the leaf sets *)
 AllAmbiguousIsOne == Site(Cfg, [n \in Nodes(Cfg) |-> "N"]) = One
+(* site-HMM theorems (configurations with hmm = TRUE) *)
+HCols == [i \in 1..Len(Cfg.cols) |-> ColOf(Cfg, Cfg.cols[i])]
+ForwardIsPathSum == Cfg.hmm => HmmLik(Cfg, HCols) = HmmBrute(Cfg, HCols)
+PatchChainStochastic == Cfg.hmm =>
+    /\ \A i \in Patches : RAdd(Trans(Cfg, i, 1), Trans(Cfg, i, 2)) = One
+    /\ \A j \in Patches : RAdd(RMul(PatchProb(Cfg, 1), Trans(Cfg, 1, j)), RMul(PatchProb(Cfg, 2), Trans(Cfg, 2, j))) = PatchProb(Cfg, j)
+(* switch = 1 is the independent mixture, switch = 0 puts the whole alignment in one patch *)
+SwitchOneIsIndependent == Cfg.hmm =>
+    HmmLik([Cfg EXCEPT !.switch = One], HCols) = RProdSeq([i \in 1..Len(HCols) |-> Site(Cfg, HCols[i])])
+SwitchZeroIsOnePatch == Cfg.hmm =>
+    HmmLik([Cfg EXCEPT !.switch = Zero], HCols) =
+        RSumSet(Patches, [p \in Patches |-> RMul(PatchProb(Cfg, p), RProdSeq([i \in 1..Len(HCols) |-> Emis(Cfg, HCols[i], p)]))])
+(* all alignments of two canonical columns have total probability one *)
+HmmSumsToOne == (Cfg.hmm /\ Cfg.normalise) =>
+    LET CC == CanonCols(Cfg)
+        EC == [col \in CC |-> [p \in Patches |-> Emis(Cfg, col, p)]]
+        T  == TTable(Cfg)
+        pp == PTable(Cfg)
+    IN  RSumSet(CC \X CC, [pr \in CC \X CC |-> HmmLikE(pp, T, <<EC[pr[1]], EC[pr[2]]>>)]) = One
 =============================================================================
